@@ -505,6 +505,18 @@ def run(R):
             R.nontriv(('guard', Mn, Ln, f))
             if m[0] == 'ok' and fheight(f) == 2 and 0 < len(m[1]) < 3:
                 R.sample({'modelcheck': '%s.modelcheck(K, %s object %s)' % (Mn, Ln, fstr(f)), 'result': m[1]}, limit=8)
+    # the same guards on DEGENERATE structures (no state at all; one state): which formulas a checker accepts does not depend on K
+    from pyModelChecking.kripke import Kripke as _Kripke
+    small = [('the empty structure Kripke()', _Kripke()), ('a one-state structure', _Kripke(R=[(0, 0)], L={0: ['p']}))]
+    sub = rng.sample(gcases, min(len(gcases), 3000 if R.thorough else 450))
+    for kname, K0 in small:
+        ks0 = kripke_sx(K0)
+        outs0 = model_batch_parallel([guard_cmd(Mn, Ln, ks0, f) for (Mn, Ln, f) in sub])
+        for (Mn, Ln, f), o in zip(sub, outs0):
+            m = model_mc(o)
+            obs = impl_guard(Mn, K0, build(f, lang_module(Ln)))
+            cons = (Mn == 'LTL' and Ln == 'CTL') or (Mn == 'CTLS' and Ln == 'PL')
+            J.guard({'kind': 'guard', 'checker': Mn, 'lang': Ln, 'tree': f, 'tree_str': fstr(f), 'structure': kname}, obs, m, conservative_ok=cons)
     mark('guard objects')
     # text: the standard (CTL*) printed form of the tree, parsed by the checker's own parser
     ttrees = [f for f in d1] + (d2[len(d1):] if R.thorough else rng.sample(d2[len(d1):], 700)) + rng.sample(t3_2, 100) + rng.sample(d3, 2000 if R.thorough else 100)
@@ -611,6 +623,10 @@ def replay(R, data):
         obs, same = impl_cast(d['lang'], f, d['target'])
         m = model_built(model_batch([['cast', d['target'], [d['lang'], fsx(f)]]])[0])
     elif kind == 'guard':
+        if d.get('structure'):
+            from pyModelChecking.kripke import Kripke as _Kripke
+            K = _Kripke() if 'empty' in d['structure'] else _Kripke(R=[(0, 0)], L={0: ['p']})
+            ks = kripke_sx(K)
         f = detuple(d['tree'])
         obs = impl_guard(d['checker'], K, build(f, lang_module(d['lang'])))
         m = model_mc(model_batch([guard_cmd(d['checker'], d['lang'], ks, f)])[0])
